@@ -21,13 +21,47 @@ import (
 var c27Scenario = flag.String("c27scenario", "", "C27 child scenario")
 
 func c27Child() {
-	// Nothing in here may print: the parent inspects the raw descriptors.
+	// Nothing in here may print: the parent inspects the raw descriptors. The number of
+	// engine runs goes to a side file named by the parent.
+	runs := 0
+	defer func() {
+		if p := os.Getenv("C27_COUNT_FILE"); p != "" {
+			os.WriteFile(p, []byte(fmt.Sprint(runs)), 0o644)
+		}
+	}()
 	switch *c27Scenario {
+	case "flush-fault-pairs":
+		v := c06variant{true, false, false, bs.CompressionNone}
+		_, n, _ := c06Run(v, nil)
+		for k := 1; k <= n; k++ {
+			for l := k + 1; l <= n+2; l++ {
+				c06Run(v, map[int]bool{k: true, l: true})
+				runs++
+			}
+		}
+	case "merge-fault-pairs":
+		for _, v := range []c13variant{{true, 4}, {false, 3}} {
+			_, n, _ := c13Run(v, nil, -1)
+			for k := 1; k <= n; k++ {
+				for l := k + 1; l <= n+3; l++ {
+					c13Run(v, map[int]bool{k: true, l: true}, -1)
+					runs++
+				}
+			}
+		}
+	case "query-faults":
+		for _, lay := range layoutsFor("quick") {
+			if lay.name == "external-writer" || lay.name == "chunks7-snappy-part" {
+				r := c23FaultCase("quick", lay, 0, 1)
+				runs += r.Evals
+			}
+		}
 	case "flush-faults":
 		for _, v := range []c06variant{{true, false, false, bs.CompressionNone}, {false, true, true, bs.CompressionSnappy}} {
 			_, n, _ := c06Run(v, nil)
 			for k := 1; k <= n; k++ {
 				c06Run(v, map[int]bool{k: true})
+				runs++
 			}
 		}
 	case "merge-faults":
@@ -35,6 +69,7 @@ func c27Child() {
 			_, n, _ := c13Run(v, nil, -1)
 			for k := 1; k <= n; k++ {
 				c13Run(v, map[int]bool{k: true}, -1)
+				runs++
 			}
 			c13Run(v, nil, 1)
 		}
@@ -131,6 +166,9 @@ func c27Parent(scn string) CaseResult {
 	fo, _ := os.Create(so)
 	fe, _ := os.Create(se)
 	cmd := exec.Command(self, "-mode", "C27child", "-c27scenario", scn)
+	cf := filepath.Join(dir, "c27-"+scn+".count")
+	cmd.Env = append(os.Environ(), "C27_COUNT_FILE="+cf)
+	defer os.Remove(cf)
 	cmd.Stdout, cmd.Stderr = fo, fe
 	err := cmd.Run()
 	fo.Close()
@@ -140,6 +178,13 @@ func c27Parent(scn string) CaseResult {
 	bo, _ := os.ReadFile(so)
 	be, _ := os.ReadFile(se)
 	res.Evals, res.Nontrivial = 1, 1
+	if b, e := os.ReadFile(cf); e == nil {
+		var n int
+		fmt.Sscan(string(b), &n)
+		if n > 0 {
+			res.Evals = n
+		}
+	}
 	if err != nil {
 		res.Findings = append(res.Findings, fnd("c27-child-failed", "C27 scenario %s: child process failed (%v); stderr: %s", scn, err, trunc(string(be), 800)))
 		return res
@@ -159,12 +204,12 @@ func init() {
 	modes["C27"] = ModeSpec{
 		Cases: func(tier string) []Case {
 			var cs []Case
-			for _, s := range []string{"flush-faults", "merge-faults", "corrupt-files", "missing-filters", "stop-deadline", "lifecycle"} {
+			for _, s := range []string{"flush-faults", "merge-faults", "flush-fault-pairs", "merge-fault-pairs", "query-faults", "corrupt-files", "missing-filters", "stop-deadline", "lifecycle"} {
 				s := s
 				cs = append(cs, Case{ID: s, Run: func() CaseResult { return c27Parent(s) }})
 			}
 			return cs
 		},
-		Rule: "six scenario groups (every single-fault flush run, every single-fault merge run, truncations/extensions/splices and CRC-consistent framing corruptions queried in both flows, external files with absent filters, Stop deadlines against stores wedged at each call kind, a plain lifecycle incl. rejected batches and an invalid regex) each run in a child process with Logger nil whose descriptors 1 and 2 are regular files; both files must stay empty",
+		Rule: "nine scenario groups (every single-fault flush run, every single-fault merge run, every ordered pair of failing store calls in a flush history and in a merge, a failure at every DataStore call position of 10 queries over two layouts, truncations/extensions/splices and CRC-consistent framing corruptions queried in both flows, external files with absent filters, Stop deadlines against stores wedged at each call kind, a plain lifecycle incl. rejected batches and an invalid regex) each run in a child process with Logger nil whose descriptors 1 and 2 are regular files; both files must stay empty",
 	}
 }
